@@ -20,7 +20,7 @@ MANIFEST = {
           '(-1, fractional, boundaries) x MIN_TIMESTAMP_RESOLUTION 0/1/10/60 x values incl. inf/nan are enumerated '
           'for representative list files.',
   'note': 'Reference: re.search semantics, a comment is a raw line starting with "#", invalid patterns are ignored, '
-          'an empty effective whitelist filters nothing. carbon.protocols.time is fixed.',
+          'an empty effective whitelist filters nothing. carbon.protocols.time is fixed. The daemon wiring (createBaseService) is run over 28 start-up scenarios: list files absent/present at start-up, later created, rewritten or removed, reload timers on a virtual clock.',
 }
 
 LINES = ['^a\\.', 'b$', '.*', 'x+', 'a.b', '# c', '', '  ', '(', ' ^a ', '(a|x)\\.b', '^(.)\\1', '(?i)^A\\.']
